@@ -165,10 +165,10 @@ def check(case, out):
 
 
 FACETS = [
-    Facet("plain", lambda tier: cases(("frac",), False), check, quick=260, thorough=4000,
+    Facet("plain", lambda tier: cases(("frac",), False), check, quick=600, thorough=4000,
           rule="unconstrained projection", case_timeout=120),
-    Facet("nodes", lambda tier: cases(("frac",), True), check, quick=200, thorough=3000,
+    Facet("nodes", lambda tier: cases(("frac",), True), check, quick=500, thorough=3000,
           rule="projection with interpolation constraints", case_timeout=120),
-    Facet("float", lambda tier: cases(("float", "npfloat")), check, quick=150, thorough=2500,
+    Facet("float", lambda tier: cases(("float", "npfloat")), check, quick=300, thorough=2500,
           rule="float data: reproduction of in-space sources"),
 ]
